@@ -61,10 +61,10 @@ def _plan(quick, seed):
     else:
         P += [("edge-" + c, c, "edge", dict(depth=12, bound=True), dict(workers=2), 30000) for c in ("atomic", "sync", "once", "pool", "vpool")]
         P += [("edge-map", "map", "edge", dict(depth=10, bound=True), dict(workers=3), 30000),
-              ("edge-map-1key", "map", "edge", dict(depth=10, bound=True, keys=("a",), maxcons=3), dict(workers=2), 15000)]
+              ("edge-map-1key", "map", "edge", dict(depth=10, bound=True, keys=("a",), maxcons=3), dict(workers=2), 10000)]
         all_depth = dict(atomic=3, sync=3, once=4, map=3, pool=5, vpool=7)
         P += [("all-" + c, c, "all", dict(depth=d, maxcons=3), dict(workers=3), None) for c, d in all_depth.items()]
-        for j in range(3):
+        for j in range(2):
             P += [("sim%d-%s" % (j, c), c, "sim", dict(depth=sim_depth[c], keys=("a", "b", "c"), maxcons=3),
                    dict(workers=1, simulate=dict(num=250), depth=sim_depth[c] + 6, seed=seed * 1000 + 10 * j + i), None)
                   for i, c in enumerate(sim_depth)]
